@@ -1264,7 +1264,11 @@ impl AttributeValue {
             }
             AttributeValue::FileIndex(val) => {
                 debug_assert_form!(constants::DW_FORM_udata);
-                uleb128_size(val.map(|id| id.raw(unit.version())).unwrap_or(0))
+                // File numbering is determined by the version of the line program.
+                uleb128_size(
+                    val.map(|id| id.raw(unit.line_program.version()))
+                        .unwrap_or(0),
+                )
             }
         })
     }
@@ -1523,7 +1527,10 @@ impl AttributeValue {
             }
             AttributeValue::FileIndex(val) => {
                 debug_assert_form!(constants::DW_FORM_udata);
-                w.write_uleb128(val.map(|id| id.raw(unit.version())).unwrap_or(0))?;
+                w.write_uleb128(
+                    val.map(|id| id.raw(unit.line_program.version()))
+                        .unwrap_or(0),
+                )?;
             }
         }
         Ok(())
@@ -1551,7 +1558,8 @@ impl UnitOffsets {
     #[inline]
     fn debug_info_offset(&self, entry: UnitEntryId) -> Option<DebugInfoOffset> {
         debug_assert_eq!(self.base_id, entry.base_id);
-        let offset = self.entries[entry.index];
+        // The id may have been reserved but never added.
+        let offset = *self.entries.get(entry.index)?;
         if offset.0 == 0 { None } else { Some(offset) }
     }
 
